@@ -37,7 +37,9 @@ pub struct Script {
 	pub claim_at_confs: Option<u32>,
 	/// reorg: (confirmations of the commitment when the reorg hits, depth, re-mine delay in blocks)
 	pub reorg: Option<(u32, u32, u32)>,
-	/// reorg of the funding transaction itself during channel establishment (depth)
+	/// while the re-mining delay runs, the closing transaction itself is re-mined at once (only what
+	/// spends its outputs stays unconfirmed)
+	pub remine_close_first: bool,
 	pub total_blocks: u32,
 }
 
@@ -145,6 +147,9 @@ fn execute(sc: &Script, style: SyncStyle, replay: Option<&[ChainEv]>, twin: bool
 	let mut reorg_done = sc.reorg.is_none();
 	let mut pending_delay: u32 = 0;
 	let mut claimed_late = false;
+	// ConfirmUnconfirmOnlySkipping follows the chain block by block, but after a reorganisation (reported
+	// through transaction_unconfirmed) it jumps straight to the third block of the new chain
+	let mut skip_after_reorg = 0u32;
 	let mut i = 0usize;
 	loop {
 		let w = &mut run.w;
@@ -168,7 +173,12 @@ fn execute(sc: &Script, style: SyncStyle, replay: Option<&[ChainEv]>, twin: bool
 					ChainEv::Disconnect(sc.reorg.unwrap().1)
 				} else if pending_delay > 0 {
 					pending_delay -= 1;
-					ChainEv::MineSalted(Vec::new(), 7)
+					let txs = if sc.remine_close_first {
+						w.chain.minable(&|_| 0).into_iter().filter(|t| funding.map(|f| t.input.iter().any(|i| i.previous_output == f)).unwrap_or(false)).collect()
+					} else {
+						Vec::new()
+					};
+					ChainEv::MineSalted(txs, 7)
 				} else {
 					ChainEv::Mine(w.chain.minable(&|_| 0))
 				}
@@ -213,6 +223,19 @@ fn execute(sc: &Script, style: SyncStyle, replay: Option<&[ChainEv]>, twin: bool
 		let at_end = replay.map(|e| i >= e.len()).unwrap_or(i as u32 >= sc.total_blocks);
 		// a disconnection is never batched together with what follows it for the skipping styles: they
 		// are told the new best block at the next connection
+		if style == SyncStyle::ConfirmUnconfirmOnlySkipping {
+			if matches!(ev, ChainEv::Disconnect(_)) {
+				skip_after_reorg = 3;
+			} else if skip_after_reorg > 1 && !at_end && !force_sync {
+				skip_after_reorg -= 1;
+				run.tuples.push(String::new());
+				run.tuples_no_sent.push(String::new());
+				run.claims.push((w.chain.blocks.last().unwrap().header.block_hash(), String::new()));
+				continue;
+			} else {
+				skip_after_reorg = 0;
+			}
+		}
 		if batch && !at_end && since_sync < 3 && !force_sync {
 			run.tuples.push(String::new());
 			run.tuples_no_sent.push(String::new());
@@ -307,14 +330,17 @@ pub fn scripts(tier: Tier) -> Vec<Script> {
 	for ct in cts {
 		for closer in [0usize, 1] {
 			for late in [false, true] {
-				v.push(Script { name: format!("{:?}-close{}-late{}", ct, closer, late as u8), ct, closer: Some(closer), late_preimage: late, claim_at_confs: None, reorg: None, total_blocks: 300 });
+				v.push(Script { name: format!("{:?}-close{}-late{}", ct, closer, late as u8), ct, closer: Some(closer), late_preimage: late, claim_at_confs: None, reorg: None, remine_close_first: false, total_blocks: 300 });
 				let confs: Vec<u32> = if th { vec![1, 2, 3, 5] } else { vec![1, 3, 5] };
 				for c in confs {
 					for d in 1..=c.min(5) {
 						if !th && d != 1 && d != c {
 							continue;
 						}
-						for delay in [0u32, 1, 3] {
+						// delay 8: the removed transactions stay unconfirmed for longer than the anti-reorg depth
+						// (only where the reorg removes the close itself, and a claim with it)
+						let delays: Vec<u32> = if d == c && (th || late) { vec![0, 1, 3, 8] } else { vec![0, 1, 3] };
+						for delay in delays {
 							if !th && late && delay == 3 {
 								continue;
 							}
@@ -324,12 +350,30 @@ pub fn scripts(tier: Tier) -> Vec<Script> {
 								closer: Some(closer),
 								late_preimage: late,
 								claim_at_confs: None,
+								remine_close_first: false,
 								reorg: Some((c, d, delay)),
 								total_blocks: 320,
 							});
 						}
 					}
 				}
+			}
+			// the close and a confirmed claim on it are reorganised out together; the close is re-mined at once,
+			// the claim stays unconfirmed for longer than the anti-reorg depth
+			for (c, delay) in [(2u32, 8u32), (3, 8), (2, 12)] {
+				if !th && (c, delay) == (2, 12) {
+					continue;
+				}
+				v.push(Script {
+					name: format!("{:?}-close{}-late1-reorg-c{}-d{}-close-first-delay{}", ct, closer, c, c, delay),
+					ct,
+					closer: Some(closer),
+					late_preimage: true,
+					claim_at_confs: None,
+					remine_close_first: true,
+					reorg: Some((c, c, delay)),
+					total_blocks: 330,
+				});
 			}
 			// the preimage reaches the monitor only after the closing transaction confirmed (k confirmations,
 			// still short of the anti-reorg depth); then a reorg that leaves the closing transaction in place
@@ -341,6 +385,7 @@ pub fn scripts(tier: Tier) -> Vec<Script> {
 					late_preimage: false,
 					claim_at_confs: Some(k),
 					reorg: None,
+					remine_close_first: false,
 					total_blocks: 300,
 				});
 				for c in (k + 1)..=5u32 {
@@ -358,6 +403,7 @@ pub fn scripts(tier: Tier) -> Vec<Script> {
 								closer: Some(closer),
 								late_preimage: false,
 								claim_at_confs: Some(k),
+								remine_close_first: false,
 								reorg: Some((c, d, delay)),
 								total_blocks: 320,
 							});
@@ -399,6 +445,11 @@ pub fn run_script(sc: &Script) -> Result<ScriptResult, String> {
 		}
 		let r = execute(sc, style, Some(&reference.events), false)?;
 		res.styles += 1;
+		if std::env::var("MC_C11_DUMP").is_ok() {
+			for i in 0..r.claims.len().min(24) {
+				eprintln!("DUMP {:?} ev{} {:?} ref={} this={}", style, i, reference.events.get(i).map(|e| format!("{:?}", e).chars().take(24).collect::<String>()), reference.claims[i].1, r.claims[i].1);
+			}
+		}
 		for (i, t) in r.tuples.iter().enumerate() {
 			if t.is_empty() {
 				continue;
